@@ -164,6 +164,66 @@ Proof.
   induction l as [|x l IH]; cbn [sort_by map]; [reflexivity|]. rewrite IH. apply insert_by_map.
 Qed.
 
+(* error classes are never 0 *)
+Lemma compat_err_nonzero c l : forall q e, compatibilityRowsFromRecords c q l = inr e -> e <> 0.
+Proof.
+  induction l as [|y l IH]; intros q e H; cbn [compatibilityRowsFromRecords] in H; [discriminate H|].
+  destruct (negb (i_ridx y =? 0) && negb (i_ridx y =? q)); [injection H as <-; discriminate|].
+  destruct (i_id y =? 0); [injection H as <-; discriminate|].
+  destruct (negb (i_rid y =? 0) && negb (i_rid y =? i_id y)); [injection H as <-; discriminate|].
+  destruct (compatibilityRowsFromRecords c (q + 1) l) as [rs|e0] eqn:E0; [discriminate H|].
+  cbn [bind] in H. injection H as <-. eapply IH. exact E0.
+Qed.
+
+Lemma getRowBySeq_err_nonzero kv c q e : getRowBySeq kv c q = inr e -> e <> 0.
+Proof.
+  unfold getRowBySeq. destruct (q =? 0); [intro H; injection H as <-; discriminate|].
+  destruct (kget (KyRow c q) kv) as [v|]; [|discriminate]. destruct v; try discriminate.
+  unfold validateMaterializedMessageRow, bind. destruct (r_id r =? 0); [intro H; injection H as <-; discriminate|].
+  destruct (negb _); [intro H; injection H as <-; discriminate|discriminate].
+Qed.
+
+Lemma lookupIdem_err_nonzero kv c u n e : lookupIdempotencyByKey kv c u n = inr e -> e <> 0.
+Proof.
+  unfold lookupIdempotencyByKey. destruct (kget (KyIdem c n u) kv) as [v|]; [|discriminate]. destruct v; try discriminate.
+  destruct (getRowBySeq kv c seq) as [[r|]|e0] eqn:Eg; cbn [bind].
+  - destruct (_ && _ && _ && _); [discriminate|intro H; injection H as <-; discriminate].
+  - intro H; injection H as <-; discriminate.
+  - intro H. injection H as <-. eapply getRowBySeq_err_nonzero. exact Eg.
+Qed.
+
+Section ValidateErr.
+  Variable F : Type.
+  Variable f_may : F -> bytes * bytes -> bool.
+  Variable f_add : F -> bytes * bytes -> F.
+
+  Lemma validateAppendRow_err_nonzero st c r sn mode st' e :
+    validateAppendRow F f_may f_add st c r sn mode = (st', inr e) -> e <> 0.
+  Proof.
+    unfold MsgStore.validateAppendRow.
+    destruct (r_id r =? 0); [intro H; injection H as _ <-; discriminate|].
+    destruct (mem_N _ _); [intro H; injection H as _ <-; discriminate|].
+    destruct (if mode =? AppendStrict then _ else false); [intro H; injection H as _ <-; discriminate|].
+    destruct (is_nil (r_uid r) || is_nil (r_cno r)); [intro H; discriminate H|].
+    destruct (mem_pair _ _); [intro H; injection H as _ <-; discriminate|].
+    destruct (mode =? AppendTrustedContiguous); [intro H; discriminate H|].
+    destruct (negb (f_may _ _)); [intro H; discriminate H|].
+    destruct (lookupIdempotencyByKey _ c (r_uid r) (r_cno r)) as [[[[q i] h]|]|e0] eqn:El.
+    - destruct (negb (q =? r_seq r)); [intro H; injection H as _ <-; discriminate|intro H; discriminate H].
+    - intro H; discriminate H.
+    - intro H. injection H as _ <-. eapply lookupIdem_err_nonzero. exact El.
+  Qed.
+
+  Lemma validate_err_nonzero rows : forall st c sn mode st' e,
+    validate_rows F f_may f_add st c rows sn mode = (st', inr e) -> e <> 0.
+  Proof.
+    induction rows as [|r rows IH]; intros st c sn mode st' e H; cbn [MsgStore.validate_rows] in H; [discriminate H|].
+    destruct (validateAppendRow F f_may f_add st c r sn mode) as [st1 [sn1|e1]] eqn:Er.
+    - eapply IH. exact H.
+    - injection H as _ <-. eapply validateAppendRow_err_nonzero. exact Er.
+  Qed.
+End ValidateErr.
+
 (* ---- the model's StoreAppendBatch ---------------------------------------------------------------------------------- *)
 Section CBatch.
   Variable F : Type.
@@ -257,17 +317,9 @@ Section CBatch.
           split; [exact E1|]. split; [exact E2|]. split; [exact E3|].
           split; [intros b Hb; destruct (E4 b Hb) as [m0 [r0 H0]]; exists m0, r0; right; exact H0|]. split; [exact E5|].
           cbn [spec_batch].
-            assert (Ee : (e =? 0) = false).
-            { unfold compatibilityRowsFromRecords in Ec. clear - Ec.
-              revert Ec. generalize (al_leo (as_log s c) + 1). generalize (x :: recs). intro l.
-              induction l as [|y l IHl]; intros q H; cbn in H; [discriminate|].
-              destruct (negb (i_ridx y =? 0) && negb (i_ridx y =? q)); [injection H as <-; reflexivity|].
-              destruct (i_id y =? 0); [injection H as <-; reflexivity|].
-              destruct (negb (i_rid y =? 0) && negb (i_rid y =? i_id y)); [injection H as <-; reflexivity|].
-              destruct (compatibilityRowsFromRecords c (q + 1) l) as [rs|e0] eqn:E0; [discriminate|].
-              cbn in H. injection H as <-. eapply IHl. exact E0. }
+            assert (Ee : (e =? 0) = false) by (apply N.eqb_neq; eapply compat_err_nonzero; exact Ec).
             rewrite Ee. exact E6. }
-      destruct (compat_rows F f_empty f_may f_add _ _ _ _ Ec) as [Hcs [Har [Hlen Hf]]].
+      destruct (compat_rows _ _ _ _ Ec) as [Hcs [Har [Hlen Hf]]].
       pose proof (validate_rows_volatile F f_may f_add rows st1 c (Seen [] []) (if m =? 1 then AppendServerAllocatedMessageID else AppendStrict)) as Hv.
       destruct (validate_rows F f_may f_add st1 c rows (Seen [] []) (if m =? 1 then AppendServerAllocatedMessageID else AppendStrict))
         as [st2 [sn|e]] eqn:Ev; cbn [fst] in Hv.
@@ -279,27 +331,7 @@ Section CBatch.
           split; [intros b Hb; destruct (E4 b Hb) as [m0 [r0 H0]]; exists m0, r0; right; exact H0|]. split; [exact E5|].
           cbn [spec_batch].
             assert (Ee : (toChannelError e =? 0) = false).
-            { unfold toChannelError. destruct (e =? EConflict) eqn:E0; [reflexivity|].
-              (* validation errors are never 0 *)
-              apply N.eqb_neq. intro X. subst e.
-              clear - Ev. revert Ev. generalize (Seen [] []). generalize st1. induction rows as [|r rows IHr]; intros st0 sn0 H; cbn in H; [discriminate|].
-              destruct (validateAppendRow F f_may f_add st0 c r sn0 _) as [st' [sn'|e']] eqn:Er; [eapply IHr; exact H|].
-              injection H as _ ->. unfold MsgStore.validateAppendRow in Er.
-              repeat match type of Er with
-                     | context [if ?b then _ else _] => destruct b
-                     | context [match lookupIdempotencyByKey ?a ?b ?c ?d with _ => _ end] =>
-                       let E := fresh "El" in destruct (lookupIdempotencyByKey a b c d) as [[[[? ?] ?]|]|?] eqn:E
-                     end; try discriminate Er; try (injection Er as _ Er; discriminate Er).
-              all: injection Er as _ Er; subst.
-              all: unfold lookupIdempotencyByKey in El; destruct (kget _ _) as [v|]; try discriminate El;
-                   destruct v; try discriminate El; unfold bind in El;
-                   destruct (getRowBySeq _ _ _) as [[r0|]|e0] eqn:Eg; try discriminate El;
-                   try (destruct (_ && _ && _ && _); discriminate El);
-                   injection El as El; subst;
-                   unfold getRowBySeq in Eg; destruct (_ =? 0); try discriminate Eg;
-                   destruct (kget _ _) as [v0|]; try discriminate Eg; destruct v0; try discriminate Eg;
-                   unfold bind, validateMaterializedMessageRow in Eg;
-                   destruct (r_id _ =? 0); try discriminate Eg; destruct (negb _); discriminate Eg. }
+            { apply N.eqb_neq. unfold toChannelError. destruct (e =? EConflict); [discriminate|]. eapply (validate_err_nonzero F f_may f_add); exact Ev. }
             rewrite Ee. exact E6. }
       (* an accepted block *)
       assert (HR2 : R st2 s) by (eapply volatile_R; eassumption).
@@ -318,14 +350,91 @@ Section CBatch.
         pose proof (count_chan_in items c m0 r0 H0) as Hc1. rewrite count_chan_app in Hcnt. unfold count_chan in Hcnt at 2. cbn [filter fst] in Hcnt.
         rewrite N.eqb_refl in Hcnt. cbn [length] in Hcnt. fold (count_chan items c) in Hcnt. lia. }
       split; [cbn [map kblock fst snd blk]; rewrite E1; reflexivity|].
-      split; [cbn [map lblock fst snd blk]; rewrite E2; f_equal; f_equal;
-              pose proof (consec_last _ _ Hcs Hne) as Hl; rewrite Hlen in Hl; lia|].
+      assert (El : last_seq rows = al_leo (as_log s c) + N.of_nat (length (x :: recs))).
+      { pose proof (consec_last _ _ Hcs Hne) as Hl. rewrite Hlen in Hl. lia. }
+      split; [cbn [map]; unfold lblock at 1; cbn [fst snd blk]; rewrite E2, El; reflexivity|].
       split; [constructor; [|exact E3]; unfold good_block; cbn [fst snd blk]; repeat split; assumption|].
       split; [intros b [<-|Hb]; [exists m, (x :: recs); left; reflexivity|destruct (E4 b Hb) as [m0 [r0 H0]]; exists m0, r0; right; exact H0]|].
       split; [cbn [map fst blk]; constructor; assumption|].
       cbn [spec_batch]. rewrite N.eqb_refl. fold scur. rewrite Hlog, N.eqb_refl, N.eqb_refl. cbn [andb].
-      rewrite <- Har. rewrite map_app in E6. unfold fold_blocks in E6 at 1. rewrite fold_left_app in E6. cbn [fold_left map ablock fst snd blk] in E6.
-      fold (fold_blocks s (map ablock Bpre)) in E6. fold scur in E6. rewrite E6.
-      unfold fold_blocks at 3. cbn [map fold_left ablock fst snd blk]. reflexivity.
+      rewrite <- Har. rewrite map_app in E6. unfold fold_blocks in E6. rewrite fold_left_app in E6. cbn [fold_left map ablock fst snd blk] in E6.
+      unfold scur, fold_blocks. refine (eq_trans E6 _). cbn [map fold_left ablock fst snd blk]. reflexivity.
+  Qed.
+
+  (* ---- the one physical batch, in any order of pairwise different channels ------------------------------------- *)
+
+  Lemma blocks_Rkv all : forall (B : list rblock) kv s,
+    Rkv kv s -> NoDup (map fst B) -> Forall (good_block s all) B ->
+    Rkv (kapply kv (flat_map snd (map kblock B))) (fold_blocks s (map ablock B)).
+  Proof.
+    induction B as [|[c rows] B IH]; intros kv s HR Hnd Hg; [exact HR|].
+    inversion Hnd as [|? ? Hni Hnd']; subst. inversion Hg as [|? ? Hb Hg']; subst.
+    destruct Hb as [Hne [_ [Hc [Hcs Hok]]]]. cbn [fst snd] in *.
+    cbn [map flat_map kblock fst snd]. rewrite kapply_app.
+    change (fold_blocks s (ablock (c, rows) :: map ablock B))
+      with (fold_blocks (spec_append s c (map arow_of rows)) (map ablock B)).
+    apply IH; [|exact Hnd'|].
+    - rewrite kapply_app. apply Rkv_irrelevant; [apply irrelevant_catalog_app|].
+      apply add_rows_Rkv; assumption.
+    - apply Forall_forall. intros b Hb. pose proof (proj1 (Forall_forall _ _) Hg' b Hb) as [H1 [H2 [H3 [H4 H5]]]].
+      assert (Hnc : fst b <> c) by (intro X; apply Hni; rewrite <- X; apply in_map; exact Hb).
+      unfold good_block. rewrite spec_append_other by exact Hnc. repeat split; assumption.
+  Qed.
+
+  Lemma fold_set_leo_kv (ls : list (N * N)) : forall st : mstate,
+    st_kv (fold_left (fun s cl => set_leo F s (fst cl) (snd cl)) ls st) = st_kv st.
+  Proof. induction ls as [|x ls IH]; intro st; cbn [fold_left]; [reflexivity|]. rewrite IH. reflexivity. Qed.
+
+  Lemma fold_set_leo_cache : forall (B : list rblock) (st : mstate) s,
+    Forall (fun b : rblock => snd b <> []) B -> Rcache F st s ->
+    Rcache F (fold_left (fun s cl => set_leo F s (fst cl) (snd cl)) (map lblock B) st) (fold_blocks s (map ablock B)).
+  Proof.
+    induction B as [|[c rows] B IH]; intros st s Hne Hc; [exact Hc|].
+    inversion Hne as [|? ? Hn Hne']; subst. cbn [snd] in Hn.
+    cbn [map fold_left lblock fst snd].
+    change (fold_blocks s (ablock (c, rows) :: map ablock B))
+      with (fold_blocks (spec_append s c (map arow_of rows)) (map ablock B)).
+    apply IH; [exact Hne'|].
+    intros c' Hld. unfold set_leo, set_cache in *. cbn [MsgStore.st_cache] in *.
+    destruct (c' =? c) eqn:E.
+    - apply N.eqb_eq in E. subst c'. cbn [cc_leo]. symmetry. apply spec_append_leo. exact Hn.
+    - apply N.eqb_neq in E. rewrite spec_append_other by exact E. apply Hc. exact Hld.
+  Qed.
+
+  Lemma good_perm s all (B B' : list rblock) : Permutation B B' -> Forall (good_block s all) B -> Forall (good_block s all) B'.
+  Proof. intros P H. eapply Permutation_Forall; eassumption. Qed.
+
+  Lemma step_cbatch st s items :
+    R st s -> Forall (fun it : item => In (fst (fst it)) all_chans) items ->
+    let '(st', rs) := CBatch F f_may f_add st items in
+    sim F s (OCBatch items) st' (XBatch rs).
+  Proof.
+    intros HR Hch. unfold CBatch.
+    pose proof (cbatch_items_sim s items items [] st [] eq_refl HR Hch ltac:(intros b [])) as H.
+    destruct (cbatch_items F f_may f_add st items items) as [[[st1 rs] bs] ls]. cbv beta iota zeta in H.
+    destruct H as [HR1 [B [E1 [E2 [Hg [_ [Hnd Hs]]]]]]]. cbn [map] in Hs.
+    change (fold_blocks s []) with s in Hs.
+    destruct bs as [|b0 bs0] eqn:Ebs.
+    - destruct B; [|discriminate E1]. exists s. split; [exact Hs|exact HR1].
+    - rewrite <- Ebs in *. clear Ebs b0 bs0.
+      exists (fold_blocks s (map ablock B)). split; [exact Hs|].
+      subst bs ls. rewrite (sort_by_map (fun x : N * kbatch => fst x) kblock B).
+      set (B' := sort_by (fun a : rblock => fst (kblock a)) B).
+      assert (P : Permutation B' B) by apply sort_by_perm.
+      assert (Hnd' : NoDup (map fst B')).
+      { eapply Permutation_NoDup; [|exact Hnd]. apply Permutation_map. apply Permutation_sym. exact P. }
+      assert (Hg' : Forall (good_block s items) B') by (eapply good_perm; [apply Permutation_sym; exact P|exact Hg]).
+      pose proof (blocks_Rkv items B' (st_kv st1) s (proj1 HR1) Hnd' Hg') as Hk.
+      assert (Hsv : seqv (fold_blocks s (map ablock B')) (fold_blocks s (map ablock B))).
+      { apply fold_blocks_perm.
+        - apply Permutation_map. exact P.
+        - rewrite map_map. exact Hnd'.
+        - apply Forall_forall. intros b Hb. apply in_map_iff in Hb. destruct Hb as [b' [<- Hb']].
+          pose proof (proj1 (Forall_forall _ _) Hg' b' Hb') as [_ [_ [H3 _]]]. exact H3. }
+      split.
+      + rewrite fold_set_leo_kv. cbn [MsgStore.st_kv commit]. eapply Rkv_seqv; [exact Hsv|exact Hk].
+      + apply fold_set_leo_cache.
+        * apply Forall_forall. intros b Hb. pose proof (proj1 (Forall_forall _ _) Hg b Hb) as [H1 _]. exact H1.
+        * exact (proj2 HR1).
   Qed.
 End CBatch.
